@@ -69,6 +69,9 @@ type c18Spec struct {
 	Runs       []c18Run  `json:"runs"`
 	Concurrent bool      `json:"concurrent,omitempty"` // runs start together (first one is held inside the lock until the others wait)
 	SleepMs    int       `json:"sleep_ms,omitempty"`   // pause between sequential runs
+	// AlignPhase: wait until the wall clock is 0.30-0.45 s into a second before materialising, so
+	// that thresholds on whole seconds (x509 NotAfter, expiresAt's +1 s) are >= 0.3 s away on both sides
+	AlignPhase bool `json:"align_phase,omitempty"`
 }
 
 // ---------------------------------------------------------------- logging wrapper
@@ -455,6 +458,15 @@ func (m *c18Mat) execute(spec c18Spec) *c18Exec {
 		be = &memBE{b: doubles.NewMemBackend()}
 	}
 	defer be.close()
+	if spec.AlignPhase {
+		for i := 0; i < 200; i++ {
+			ns := time.Now().Nanosecond()
+			if ns >= 300e6 && ns <= 450e6 {
+				break
+			}
+			time.Sleep(20 * time.Millisecond)
+		}
+	}
 	now := time.Now()
 	for _, it := range spec.Items {
 		if it.Kind == "dir" {
@@ -823,7 +835,7 @@ func (g *c18Gen) site(items *[]c18Item, hist func(string), backend, issuer, site
 	add := func(k, kind string, off int64, text, why string) {
 		*items = append(*items, c18Item{Key: k, Kind: kind, Off: off, Text: text, Why: why})
 	}
-	kind := g.pick("valid", "expired_lt_grace", "expired_ge_grace", "expired_ge_grace", "malformed", "crt_only", "key_only", "foreign", "second_crt", "empty_dir", "nested", "keydir")
+	kind := g.pick("valid", "expired_lt_grace", "expired_ge_grace", "expired_ge_grace", "malformed", "crt_only", "key_only", "foreign", "second_crt", "empty_dir", "nested", "keydir", "crtdir", "dotcrt")
 	hist("site=" + kind)
 	switch kind {
 	case "valid", "expired_lt_grace", "expired_ge_grace":
@@ -851,6 +863,10 @@ func (g *c18Gen) site(items *[]c18Item, hist func(string), backend, issuer, site
 				add(dir+f, "raw", 0, "foreign "+f, "")
 			}
 		}
+		if g.r.Intn(2) == 0 { // path.Ext is case-sensitive: an expired certificate in X.CRT is not looked at
+			add(dir+"other.CRT", "cert", g.certOff("expired_ge_grace", grace), "", "")
+			add(dir+"other.key", "raw", 0, "@key", "")
+		}
 	case "second_crt": // two certificates in one folder with different fates
 		add(base+".crt", "cert", g.certOff("valid", grace), "", "second_crt")
 		add(base+".key", "raw", 0, "@key", "")
@@ -870,6 +886,15 @@ func (g *c18Gen) site(items *[]c18Item, hist func(string), backend, issuer, site
 		sub := "certificates/" + issuer + "/" + site + "/backup/" + site
 		add(sub+".crt", "cert", g.certOff("expired_ge_grace", grace), "", "nested")
 		add(sub+".key", "raw", 0, "@key", "")
+	case "crtdir": // X.crt is a folder: Load fails, deleteExpiredCerts returns an error
+		add(base+".crt/inner.pem", "cert", g.certOff("expired_ge_grace", grace), "", "crtdir")
+		add(base+".key", "raw", 0, "@key", "")
+	case "dotcrt": // a file named ".crt": base name = the folder + "/"
+		dir := "certificates/" + issuer + "/" + site + "/"
+		add(dir+".crt", "cert", g.certOff(g.pick("valid", "expired_ge_grace"), grace), "", "dotcrt")
+		add(dir+".key", "raw", 0, "@key", "")
+		add(dir+".json", "raw", 0, "{}", "")
+		add(dir+"x.key", "raw", 0, "@key", "")
 	case "keydir": // X.key is a folder
 		add(base+".crt", "cert", g.certOff(g.pick("valid", "expired_ge_grace"), grace), "", "keydir")
 		add(base+".key/inner.pem", "raw", 0, "@key", "")
@@ -919,13 +944,19 @@ func (g *c18Gen) spec(hist func(string)) c18Spec {
 			add("last_clean.json", "raw", 0, "{corrupt")
 		}
 	case "dir":
-		run.Interval = hour
+		run.Interval = []int64{hour, hour, 0}[g.r.Intn(3)] // Interval 0: cleans, then the Store fails
 		add("last_clean.json/x", "raw", 0, "inside")
 	}
 	// certificates
 	nIss := 1 + g.r.Intn(2)
+	certsIsFile := false
 	if g.r.Intn(12) == 0 {
 		nIss = 0
+		if g.r.Intn(2) == 0 {
+			add("certificates", "raw", 0, "certificates is a file")
+			hist("stray=certificates_is_a_file")
+			certsIsFile = true
+		}
 	}
 	siteNames := []string{"a.example", "b.example.com", "wildcard_.c.example", "d-e.example", "f.example", "10.0.0.1", "zz.example"}
 	for i := 0; i < nIss; i++ {
@@ -940,11 +971,11 @@ func (g *c18Gen) spec(hist func(string)) c18Spec {
 			hist("stray=issuer_folder")
 		}
 	}
-	if g.r.Intn(4) == 0 {
+	if g.r.Intn(4) == 0 && !certsIsFile {
 		add("certificates/"+g.pick("README", "backup.crt"), "raw", 0, "top-level stray")
 		hist("stray=certificates_folder")
 	}
-	if g.r.Intn(8) == 0 && sp.Backend == "fs" {
+	if g.r.Intn(8) == 0 && sp.Backend == "fs" && !certsIsFile {
 		items = append(items, c18Item{Key: "certificates/empty-issuer", Kind: "dir"})
 		hist("stray=empty_issuer_dir")
 	}
@@ -952,6 +983,10 @@ func (g *c18Gen) spec(hist func(string)) c18Spec {
 	nSt := g.r.Intn(6)
 	if g.r.Intn(10) == 0 {
 		nSt = 0
+		if g.r.Intn(2) == 0 {
+			add("ocsp", "staple", -3600, "")
+			hist("stray=ocsp_is_a_file")
+		}
 	}
 	for j := 0; j < nSt; j++ {
 		k := fmt.Sprintf("ocsp/%s-%08x", siteNames[g.r.Intn(len(siteNames))], g.r.Uint32())
@@ -993,7 +1028,11 @@ func (g *c18Gen) spec(hist func(string)) c18Spec {
 	case 0, 1:
 		n := 1 + g.r.Intn(2)
 		for i := 0; i < n; i++ {
-			run.Faults = append(run.Faults, g.r.Intn(40))
+			if g.r.Intn(2) == 0 {
+				run.Faults = append(run.Faults, g.r.Intn(8)) // Lock, the Load of last_clean.json, the first listings
+			} else {
+				run.Faults = append(run.Faults, g.r.Intn(40))
+			}
 		}
 		sort.Ints(run.Faults)
 		hist("env=faults")
@@ -1095,6 +1134,20 @@ func c18Corpus() []struct {
 			class string
 			spec  c18Spec
 		}{"corpus_skip_recent", c18Spec{Backend: be, Items: items2, Runs: []c18Run{r}}})
+	}
+	// expiresAt = NotAfter truncated to the second + 1 s: with the clock 0.3-0.45 s into a second,
+	// NotAfter = floor(now) - grace is expired for (grace - 1 s + 0.3..0.45 s) < grace: stays;
+	// NotAfter = floor(now) - grace - 1 s is expired for grace + 0.3..0.45 s: goes
+	for _, be := range []string{"fs", "mem"} {
+		for _, gr := range []int64{0, 3600} {
+			items := append(full("iss", "stays.example", -gr), full("iss", "goes.example", -gr-1)...)
+			items = append(items, c18Item{Key: "ocsp/s-1", Kind: "staple", Off: 1}, c18Item{Key: "ocsp/s-2", Kind: "staple", Off: 0}, c18Item{Key: "ocsp/s-3", Kind: "staple", Off: -1})
+			r := c18Run{OCSP: true, Certs: true, Grace: gr * 1e9, Cancel: -1, Inst: "phase"}
+			out = append(out, struct {
+				class string
+				spec  c18Spec
+			}{"corpus_expiresat_second_rounding", c18Spec{Backend: be, Items: items, Runs: []c18Run{r}, AlignPhase: true}})
+		}
 	}
 	// two concurrent cleaners, second one must wait and then skip / clean again
 	items := append(full("iss", "dead.example", -30*day), full("iss", "live.example", 30*day)...)
